@@ -266,6 +266,24 @@ def special_alignments(rng, sc, sample, chrom, n):
     return out + extra
 
 
+def _consistent(opts, rng, chroms):
+    """whatshap rejects --genmap without exactly one --chromosome and --use-ped-samples together with --sample"""
+    if "--use-ped-samples" in opts:
+        out, skip = [], False
+        for o in opts:
+            if skip:
+                skip = False
+                continue
+            if o == "--sample":
+                skip = True
+                continue
+            out.append(o)
+        opts = out
+    if "--genmap" in opts and "--chromosome" not in opts:
+        opts = opts + ["--chromosome", rng.choice(chroms)]
+    return opts
+
+
 def option_jobs(rng, d, sc, f, names, trios, one, ph, feat):
     """Jobs that walk through the option space of every subcommand: sample / chromosome subsets (in any order),
     --ignore-read-groups, algorithms, tags, several input files, compressed output, regions, extra outputs."""
@@ -322,11 +340,16 @@ def option_jobs(rng, d, sc, f, names, trios, one, ph, feat):
             opts += ["--ped", f["ped"]]
             opts += [["--genmap", f["genmap"]], ["--no-genetic-haplotyping"], [], ["--use-ped-samples"]][
                 0 if k == 0 else rng.randrange(4)]
+        opts = _consistent(opts, rng, chroms)
         ext = "vcf.gz" if k == 0 else rng.choice(["vcf", "vcf", "vcf.gz"])
         jobs.append(Job(f"phase-opts{k}", "phase", opts + R + ["-o", "{out}/out." + ext, "--output-read-list",
                                                                "{out}/readlist.tsv", f["unphased"], f["bam"]],
                         {"vcf": ("out." + ext, V), "read-list": ("readlist.tsv", T)},
                         feat=dict(feat, options=" ".join(opts), out_ext=ext)))
+    # hapchat, many exact repetitions (its output was seen to differ between identical runs about once in 60)
+    jobs.append(Job("phase-hapchat-repeat", "phase", ["--algorithm", "hapchat", "--tag", "HP"] + R +
+                    ["-o", "{out}/out.vcf", f["unphased"], f["bam"]], {"vcf": ("out.vcf", V)},
+                    feat=dict(feat, options="--algorithm hapchat --tag HP", repeats=8)))
     s1 = rng.choice(names)
     jobs.append(Job("phase-ignore-read-groups", "phase", ["--ignore-read-groups", "--sample", s1] + R +
                     ["-o", "{out}/out.vcf", f["unphased"], f["bam"]], {"vcf": ("out.vcf", V)},
@@ -350,6 +373,7 @@ def option_jobs(rng, d, sc, f, names, trios, one, ph, feat):
             opts += ["--chromosome", rng.choice(chroms)]
         if rng.random() < 0.5:
             opts += ["--ped", f["ped"]] + rng.choice([[], ["--use-ped-samples"], ["--genmap", f["genmap"]]])
+        opts = _consistent(opts, rng, chroms)
         outs = {"vcf": ("out.vcf", V)}
         if "--no-priors" not in opts:
             opts += ["--prioroutput", "{out}/prior.vcf"]
